@@ -796,10 +796,12 @@ class EvalFunc:
         for name, value in self.local_sym_table.items():
             if name in sym_table:
                 sym_table[name] = EvalLocalVar(name, value=sym_table[name])
-            elif value.is_defined():
-                sym_table[name] = value
-            else:
+            elif name in self.local_names and name not in self.nonlocal_names:
+                # our own local: every call gets a fresh cell
                 sym_table[name] = EvalLocalVar(name)
+            else:
+                # captured from an enclosing scope: shared, also while it is still unbound there
+                sym_table[name] = value
         if ast_ctx.global_ctx != self.global_ctx:
             #
             # switch to the global symbol table in the global context
